@@ -2246,6 +2246,40 @@ pub fn intern_pending<'db>(db: &'db dyn TyckDb) -> ScopedData<'db> {
     )
 }
 
+/// One resolved program assembled outside the source pipeline, waiting to enter
+/// the query graph through [`intern_ticket`]. Every program gets its own ticket,
+/// so neither the memo nor the parts are shared between checks or threads.
+#[salsa::input]
+pub struct PendingTicket {
+    #[returns(ref)]
+    parts: std::sync::Mutex<Option<PendingParts>>,
+}
+
+impl PendingTicket {
+    pub fn issue(db: &dyn TyckDb, parts: PendingParts) -> Self {
+        Self::new(db, std::sync::Mutex::new(Some(parts)))
+    }
+}
+
+/// Intern the resolved program carried by `ticket` as a tracked struct, inside
+/// the query graph where tracked-struct creation is legal.
+#[salsa::tracked]
+pub fn intern_ticket<'db>(db: &'db dyn TyckDb, ticket: PendingTicket) -> ScopedData<'db> {
+    let parts = ticket
+        .parts(db)
+        .lock()
+        .expect("pending ticket poisoned")
+        .take()
+        .expect("a pending ticket is interned once");
+    ScopedData::new(
+        db,
+        std::sync::Arc::new(parts.spans),
+        parts.prim,
+        std::sync::Arc::new(parts.scoped),
+        parts.root,
+    )
+}
+
 /// The complete result of checking one source snapshot.
 #[derive(Clone, Debug)]
 pub struct TyckOutput {
